@@ -31,6 +31,8 @@ func runC01(c *Ctx) {
 	c.ruleFifoSegments("R01.6", c.pqRoles("R01.6"))
 	// an accepted job is only ever invoked if the dispatcher cannot lose the wake-up that announces it
 	c.ruleDispatcherLoop("R01.7")
+	// "single dispatcher" across runs: the previous run's dispatcher has exited before the next one is spawned
+	c.ruleDispatcherJoined("R01.8")
 }
 
 // concreteDequeues: the library's own queue implementations of Dequeue.
